@@ -37,6 +37,22 @@ fn laws<T: Lattice + Clone + PartialEq + Debug>(a: &T, b: &T, c: &T) -> Result<(
    let ab_le = le(a, b);
    law!(ab_le == (&j(a, b) == b), "a <= b ({ab_le}) disagrees with join(a,b) == b: {a:?} {b:?} join={:?}", j(a, b));
    law!(ab_le == (&m(a, b) == a), "a <= b ({ab_le}) disagrees with meet(a,b) == a: {a:?} {b:?} meet={:?}", m(a, b));
+   // the comparison itself is the order the operations define: Equal exactly for equal values, Less / Greater exactly
+   // for strictly smaller / larger ones, None for incomparable ones (and hence <, >, >= agree as well)
+   {
+      use std::cmp::Ordering::*;
+      let want = if a == b {
+         Some(Equal)
+      } else if &j(a, b) == b {
+         Some(Less)
+      } else if &j(a, b) == a {
+         Some(Greater)
+      } else {
+         None
+      };
+      let got = a.partial_cmp(b);
+      law!(got == want, "partial_cmp({a:?}, {b:?}) = {got:?}, the order defined by join gives {want:?}");
+   }
    // in-place variants
    let mut x = a.clone();
    let ch = x.join_mut(b.clone());
